@@ -16,6 +16,7 @@ import (
 	"path/filepath"
 	"sort"
 	"strings"
+	"sync"
 	"time"
 
 	"golang.org/x/tools/go/callgraph"
@@ -327,6 +328,9 @@ func seededSelfTest(c *Check) map[string]interface{} {
 	dirs, _ := filepath.Glob(filepath.Join(verifDir(), "seeded", "*"))
 	sort.Strings(dirs)
 	self, _ := os.Executable()
+	// the changes seeded for this property (with rules shared between properties, "every change this check reports" would
+	// be most of the corpus), eight at a time
+	var own []string
 	for _, d := range dirs {
 		metaB, err := os.ReadFile(filepath.Join(d, "meta.json"))
 		if err != nil {
@@ -334,58 +338,68 @@ func seededSelfTest(c *Check) map[string]interface{} {
 		}
 		var meta map[string]interface{}
 		json.Unmarshal(metaB, &meta)
-		catchers := map[string]bool{}
-		if cs, ok := meta["caught_by"].([]interface{}); ok {
-			for _, x := range cs {
-				catchers[fmt.Sprint(x)] = true
-			}
-		}
-		if fmt.Sprint(meta["property"]) != c.Prop && !catchers[c.Prop] {
+		if fmt.Sprint(meta["property"]) != c.Prop {
 			continue
 		}
-		w, err := os.MkdirTemp("", "svclint-seeded-")
-		if err != nil {
-			continue
-		}
-		res := "error"
-		func() {
-			defer os.RemoveAll(w)
-			repo := filepath.Join(w, "repo")
-			vdir := filepath.Join(w, "verif")
-			os.MkdirAll(filepath.Join(vdir, "evidence"), 0o755)
-			cp := exec.Command("sh", "-c", "git ls-files -z | xargs -0 cp --parents -t "+repo)
-			os.MkdirAll(repo, 0o755)
-			cp.Dir = c.P.Dir
-			if err := cp.Run(); err != nil {
-				return
-			}
-			ap := exec.Command("git", "apply", "--whitespace=nowarn", filepath.Join(d, "patch.diff"))
-			ap.Dir = repo
-			if err := ap.Run(); err != nil {
-				res = "patch does not apply to the current tree"
-				return
-			}
-			if kb, err := os.ReadFile(filepath.Join(verifDir(), "KNOWN_FINDINGS.txt")); err == nil {
-				os.WriteFile(filepath.Join(vdir, "KNOWN_FINDINGS.txt"), kb, 0o644)
-			}
-			cmd := exec.Command(self, "check", "-p", c.Prop, "-tier", "quick")
-			cmd.Env = append(toolEnv(), "SVCLINT_REPO="+repo, "SVCLINT_VERIF="+vdir)
-			var buf bytes.Buffer
-			cmd.Stdout = &buf
-			cmd.Run()
-			var hits []string
-			for _, ln := range strings.Split(buf.String(), "\n") {
-				if i := strings.Index(ln, "rule="); i >= 0 && strings.Contains(ln, "construct=") {
-					hits = append(hits, strings.Fields(ln[i:])[0])
-				}
-			}
-			if len(hits) > 0 {
-				res = "reported: " + strings.Join(uniq(sortStrings(hits)), " ")
-			} else {
-				res = "NOT reported by this check"
-			}
-		}()
-		out[filepath.Base(d)] = res
+		own = append(own, d)
 	}
+	var mu sync.Mutex
+	var wg sync.WaitGroup
+	sem := make(chan struct{}, 8)
+	for _, d := range own {
+		d := d
+		wg.Add(1)
+		sem <- struct{}{}
+		go func() {
+			defer wg.Done()
+			defer func() { <-sem }()
+			w, err := os.MkdirTemp("", "svclint-seeded-")
+			if err != nil {
+				return
+			}
+			res := "error"
+			func() {
+				defer os.RemoveAll(w)
+				repo := filepath.Join(w, "repo")
+				vdir := filepath.Join(w, "verif")
+				os.MkdirAll(filepath.Join(vdir, "evidence"), 0o755)
+				cp := exec.Command("sh", "-c", "git ls-files -z | xargs -0 cp --parents -t "+repo)
+				os.MkdirAll(repo, 0o755)
+				cp.Dir = c.P.Dir
+				if err := cp.Run(); err != nil {
+					return
+				}
+				ap := exec.Command("git", "apply", "--whitespace=nowarn", filepath.Join(d, "patch.diff"))
+				ap.Dir = repo
+				if err := ap.Run(); err != nil {
+					res = "patch does not apply to the current tree"
+					return
+				}
+				if kb, err := os.ReadFile(filepath.Join(verifDir(), "KNOWN_FINDINGS.txt")); err == nil {
+					os.WriteFile(filepath.Join(vdir, "KNOWN_FINDINGS.txt"), kb, 0o644)
+				}
+				cmd := exec.Command(self, "check", "-p", c.Prop, "-tier", "quick")
+				cmd.Env = append(toolEnv(), "SVCLINT_REPO="+repo, "SVCLINT_VERIF="+vdir)
+				var buf bytes.Buffer
+				cmd.Stdout = &buf
+				cmd.Run()
+				var hits []string
+				for _, ln := range strings.Split(buf.String(), "\n") {
+					if i := strings.Index(ln, "rule="); i >= 0 && strings.Contains(ln, "construct=") {
+						hits = append(hits, strings.Fields(ln[i:])[0])
+					}
+				}
+				if len(hits) > 0 {
+					res = "reported: " + strings.Join(uniq(sortStrings(hits)), " ")
+				} else {
+					res = "NOT reported by this check"
+				}
+			}()
+			mu.Lock()
+			out[filepath.Base(d)] = res
+			mu.Unlock()
+		}()
+	}
+	wg.Wait()
 	return out
 }
